@@ -47,11 +47,11 @@ func genReplicas(r *Rng, n int) []Replica {
 	if r.Chance(5) {
 		hist.Soak = 300
 	}
-	reps := []Replica{canonicalReplica, {Mode: "reverse", Clock: 1_500_000_123, Rand: 99, Sched: r.Uint64() | 1, Procs: 1, Preempt: 10, Rate: 20_000_000}, hist}
+	reps := []Replica{canonicalReplica, {Mode: "reverse", Clock: 1_500_000_123, Rand: 99, Sched: r.Uint64() | 1, Procs: 1, Preempt: 10, Rate: 20_000_000, MTime: r.Uint64() | 1}, hist}
 	n++
 	for i := 2; i < n; i++ {
 		rep := Replica{Mode: "random", Seed: r.Uint64(), Clock: 1_600_000_000 + int64(r.Intn(1_000_000)), Rand: int64(r.Uint64() >> 1),
-			Sched: r.Uint64() | 1, Procs: Pick(r, []int{1, 4, 16}), Preempt: Pick(r, []int{0, 20, 50}), Rate: Pick(r, []int64{0, 50, 300_000, 5_000_000})}
+			Sched: r.Uint64() | 1, Procs: Pick(r, []int{1, 4, 16}), Preempt: Pick(r, []int{0, 20, 50}), Rate: Pick(r, []int64{0, 50, 300_000, 5_000_000}), MTime: r.Uint64() | 1}
 		if i == 3 {
 			rep.Mode, rep.Rot = "rotate", 1+r.Intn(3)
 		}
@@ -250,6 +250,8 @@ func execC14(sc *Scenario, rep Replica) c14Exec {
 	}
 	simrt.SetOrder(rep.Policy())
 	simrt.SetClock(&simrt.Clock{Base: timeUnix(rep.Clock), Rate: rep.Rate}, rep.Rand)
+	simrt.MTimeSeed = rep.MTime
+	defer func() { simrt.MTimeSeed = 0 }()
 	procs := rep.Procs
 	if procs == 0 {
 		procs = 2
@@ -544,6 +546,11 @@ func (p c14) signature(sc *Scenario, ri, d int) string {
 	if dd, _, _, _ := c14Diverges(sc, cand); dd >= 0 {
 		return "clock-or-prng"
 	}
+	mc := canonicalReplica
+	mc.MTime = rep.MTime
+	if dd, _, _, _ := c14Diverges(sc, mc); dd >= 0 {
+		return "file-modification-times"
+	}
 	return "order@multiple-sites"
 }
 
@@ -559,6 +566,8 @@ func (p c14) minimise(orig *Scenario, ri, d int, v *Violation) *Violation {
 	hcand.History, hcand.Soak = true, rep.Soak
 	scand := canonicalReplica
 	scand.Sched, scand.Procs, scand.Preempt = rep.Sched, rep.Procs, rep.Preempt
+	mcand := canonicalReplica
+	mcand.MTime = rep.MTime
 	if dd, _, _, _ := c14Diverges(sc, canonicalReplica); dd >= 0 {
 		// two executions under IDENTICAL seams differ: something outside the seams (addresses,
 		// allocation state) reaches the output
@@ -581,6 +590,9 @@ func (p c14) minimise(orig *Scenario, ri, d int, v *Violation) *Violation {
 			}
 		}
 		sc.Replicas[1] = hcand
+	} else if dd, _, _, _ := c14Diverges(sc, mcand); rep.MTime != 0 && dd >= 0 {
+		sig = "file-modification-times"
+		sc.Replicas[1] = mcand
 	} else if dd, _, _, _ := c14Diverges(sc, cand); dd >= 0 {
 		sig = "clock-or-prng"
 		sc.Replicas[1] = cand
